@@ -408,11 +408,16 @@ def iterjoin(left, right, lkey, rkey, leftouter=False, rightouter=False,
     # loop until *either* of the iterators is exhausted
     # initialise here to handle empty tables
     lkval, rkval = Comparable(None), Comparable(None)
+    # keep track of row groups picked off but not yet dealt with, N.B., cannot
+    # be worked out from the key values because None is a valid key value
+    lpending, rpending = False, False
     try:
 
         # pick off initial row groups
         lkval, lrowgrp = next(lgit)
+        lpending = True
         rkval, rrowgrp = next(rgit)
+        rpending = True
 
         while True:
             if lkval < rkval:
@@ -420,26 +425,33 @@ def iterjoin(left, right, lkey, rkey, leftouter=False, rightouter=False,
                     for row in joinrows(lrowgrp, None):
                         yield tuple(row)
                 # advance left
+                lpending = False
                 lkval, lrowgrp = next(lgit)
+                lpending = True
             elif lkval > rkval:
                 if rightouter:
                     for row in joinrows(None, rrowgrp):
                         yield tuple(row)
                 # advance right
+                rpending = False
                 rkval, rrowgrp = next(rgit)
+                rpending = True
             else:
                 for row in joinrows(lrowgrp, rrowgrp):
                     yield tuple(row)
                 # advance both
+                lpending, rpending = False, False
                 lkval, lrowgrp = next(lgit)
+                lpending = True
                 rkval, rrowgrp = next(rgit)
+                rpending = True
 
     except StopIteration:
         pass
 
     # make sure any left rows remaining are yielded
     if leftouter:
-        if lkval > rkval:
+        if lpending:
             # yield anything that got left hanging
             for row in joinrows(lrowgrp, None):
                 yield tuple(row)
@@ -450,7 +462,7 @@ def iterjoin(left, right, lkey, rkey, leftouter=False, rightouter=False,
 
     # make sure any right rows remaining are yielded
     if rightouter:
-        if lkval < rkval:
+        if rpending:
             # yield anything that got left hanging
             for row in joinrows(None, rrowgrp):
                 yield tuple(row)
@@ -623,10 +635,14 @@ def iterantijoin(left, right, lkey, rkey):
 
     # loop until *either* of the iterators is exhausted
     lkval, rkval = Comparable(None), Comparable(None)
+    # keep track of a left row group picked off but not yet dealt with, N.B.,
+    # cannot be worked out from the key values because None is a valid key
+    lpending = False
     try:
 
         # pick off initial row groups
         lkval, lrowgrp = next(lgit)
+        lpending = True
         rkval, _ = next(rgit)
 
         while True:
@@ -634,20 +650,24 @@ def iterantijoin(left, right, lkey, rkey):
                 for row in lrowgrp:
                     yield tuple(row)
                 # advance left
+                lpending = False
                 lkval, lrowgrp = next(lgit)
+                lpending = True
             elif lkval > rkval:
                 # advance right
                 rkval, _ = next(rgit)
             else:
                 # advance both
+                lpending = False
                 lkval, lrowgrp = next(lgit)
+                lpending = True
                 rkval, _ = next(rgit)
 
     except StopIteration:
         pass
 
     # any left over?
-    if lkval > rkval:
+    if lpending:
         # yield anything that got left hanging
         for row in lrowgrp:
             yield tuple(row)
